@@ -23,7 +23,7 @@ spec fn ps_inv(s: crate::htlc_manager::PaymentState, g: G) -> bool {
 //@ fn htlc_manager::PaymentState::new
 //@ returns r
 //@ implicit [C06]
-//@ ensures#blank_entry [C03,C06,C07,C04,C11]
+//@ ensures#blank_entry [C03,C06,C07,C04,C11,C12,C10,C01]
       ps_inv(r, G { ready_q: Seq::empty(), fail_q: Seq::empty(), held: Seq::empty(), ever_ready_sent: false, via_listener: false, listener_value: None, incoming: 0 })
       && r.trampoline == trampoline && r.resolution is None && !r.is_ready && !r.is_fail_requested
 //@ end
